@@ -34,10 +34,10 @@ GEN_SCOPE = {
     "C08": ["Ad_chain_read", "SrcC08"], "C09": ["Ad_take_read", "SrcC09"],
     "C10": ["Fb_deframe", "Fb_mem_", "SrcC10"] + _DF, "C11": ["Fb_try_parse", "SrcC11"] + _READS,
     "C12": ["Fb_read_frame", "Fb_copy_once_from", "SrcC12"],
-    "C13": ["Ad_chain_write", "Ad_chain_flush", "Ad_take_write", "Ad_take_flush"] + _AAD_W,
-    "C16": _AAD_R, "C17": _AFB,
-    "C14": _ASYNC, "C15": _ASYNC,
-    "C19": ["Es_escape_ascii", "Es_fb_escape_ascii", "Es_debug_fmt"],
+    "C13": ["Ad_chain_write", "Ad_chain_flush", "Ad_take_write", "Ad_take_flush"] + _AAD_W + ["SrcC13"],
+    "C16": _AAD_R + ["SrcC16"], "C17": _AFB + ["SrcC17"],
+    "C14": _ASYNC + ["SrcC14"], "C15": _ASYNC + ["SrcC14"],
+    "C19": ["Es_escape_ascii", "Es_fb_escape_ascii", "Es_debug_fmt", "SrcC19"],
 }
 for _pid, _scope in GEN_SCOPE.items():
     REGISTRY[_pid].gen_scope = _scope
